@@ -2,6 +2,9 @@ package c10
 
 import (
 	"fmt"
+	cid "github.com/ipfs/go-cid"
+	cbor "github.com/ipfs/go-ipld-cbor"
+	mh "github.com/multiformats/go-multihash"
 	"testing"
 	"testing/synctest"
 
@@ -30,6 +33,24 @@ func (s *sim) runExpiryCase(c *expiryCase) (*outcome, []pinSpec) {
 		ps := pinSpec{Kind: "exp", Label: fmt.Sprintf("exp-%d-%d", c.Salt, k), Depth: -1, Min: 1, Max: 1, Alloc: []int{k % c.N}, Expire: c.Expire[k]}
 		if c.Style == "everywhere" {
 			ps.Min, ps.Max, ps.Alloc = -1, -1, nil
+		}
+		if c.Style == "sharded" && k == 0 {
+			// the first item is sharded content added with an expiry: the
+			// options of the add (and so the expiry) are on the meta pin,
+			// the cluster-DAG pin and the shard pin alike
+			sh := pinSpec{Kind: "exp-shard", Type: "shard", Label: ps.Label + "-shard", Depth: 1, Min: 1, Max: 1, Alloc: []int{0}, Expire: c.Expire[0]}
+			dl := ps.Label + "-cdag"
+			node, err := cbor.WrapObject(map[string]cid.Cid{"0": s.cidOf(sh.Label)}, mh.SHA2_256, mh.DefaultLengths[mh.SHA2_256])
+			if err != nil {
+				panic(err)
+			}
+			s.special[dl] = node.Cid()
+			s.blocks[node.Cid().String()] = node.RawData()
+			cd := pinSpec{Kind: "exp-cdag", Type: "cdag", Label: dl, Depth: 0, Min: -1, Max: -1, Ref: ps.Label, Expire: c.Expire[0]}
+			ps.Kind, ps.Type, ps.Depth, ps.Ref = "exp-meta", "meta", 0, dl
+			ps.Alloc = nil
+			specs = append(specs, sh, cd)
+			pins = append(pins, s.mkPin(sh), s.mkPin(cd))
 		}
 		specs = append(specs, ps)
 		pins = append(pins, s.mkPin(ps))
@@ -64,18 +85,25 @@ func judgeExpiry(c *expiryCase, o *outcome, specs []pinSpec) []verdict {
 	if o.Panic != "" {
 		add("panic", "no panic", o.Panic)
 	}
-	for k, ps := range specs {
+	for _, ps := range specs {
 		unpins := callsOf(o, ps.Label, "unpin")
 		switch {
-		case c.Expire[k] < 0 && c.Follower:
+		case ps.Expire < 0 && c.Follower:
 			if len(unpins) > 0 {
 				add("follower-unpinned-an-expired-pin", "no LogUnpin by a follower", fmt.Sprintf("%+v", unpins))
 			}
-		case c.Expire[k] < 0:
+		case ps.Expire < 0:
+			// "by exactly one peer": the unpin of sharded content logs the
+			// meta entry twice within the one operation (once as part of
+			// the cluster-DAG's contents, once as the item itself)
+			by := map[int]bool{}
+			for _, u := range unpins {
+				by[u.By] = true
+			}
 			if len(unpins) == 0 {
-				add("expired-pin-not-unpinned", "exactly one LogUnpin", "none")
-			} else if len(unpins) > 1 {
-				add("expired-pin-unpinned-by-several-peers", "exactly one LogUnpin", fmt.Sprintf("%+v", unpins))
+				add("expired-pin-not-unpinned", "unpinned by exactly one peer", "none")
+			} else if len(by) > 1 {
+				add("expired-pin-unpinned-by-several-peers", "unpinned by exactly one peer", fmt.Sprintf("%+v", unpins))
 			}
 		default:
 			if len(unpins) > 0 {
@@ -96,7 +124,7 @@ func runExpiry(t *testing.T, unit string, n int, bases []int, salts int) {
 	sec := R.Sec(unit)
 	sec.Bounds["peers"] = n
 	sec.Bounds["identity_sets"] = bases
-	sec.Bounds["pinset"] = fmt.Sprintf("3 data pins, ExpireAt in {none, now-1h, now+1h}^3, %d CID sets, allocated to one peer | everywhere", salts)
+	sec.Bounds["pinset"] = fmt.Sprintf("3 items, ExpireAt in {none, now-1h, now+1h}^3, %d CID sets: data pins allocated to one peer | everywhere | the first item sharded content (meta pin + cluster-DAG pin + one shard pin, all carrying the item's expiry; the daemon serves the cluster-DAG block)", salts)
 	sec.Bounds["run"] = "every peer runs StateSync once: on the shared pinset in index order, in reverse order, and on private snapshots of the pinset"
 	sec.Bounds["config"] = "disable_repinning {F,T} x follower {F,T}"
 	for _, base := range bases {
@@ -105,17 +133,17 @@ func runExpiry(t *testing.T, unit string, n int, bases []int, salts int) {
 				for e := 0; e < 27; e++ {
 					ex := [3]int{e%3 - 1, (e/3)%3 - 1, (e/9)%3 - 1}
 					for salt := 0; salt < salts; salt++ {
-						for _, style := range []string{"one", "everywhere"} {
+						for _, style := range []string{"one", "everywhere", "sharded"} {
 							for _, mode := range []string{"seq", "rev", "snapshot"} {
 								c := &expiryCase{Unit: unit, IDBase: base, N: n, Disable: cfg.dis, Follower: cfg.fol, Expire: ex, Salt: salt, Style: style, Mode: mode}
 								o, specs := s.runExpiryCase(c)
 								nexp := 0
 								ob := ""
-								for k, ps := range specs {
-									if ex[k] < 0 {
+								for _, ps := range specs {
+									if ps.Expire < 0 {
 										nexp++
 									}
-									ob += fmt.Sprintf("%d>%d,", ex[k], len(callsOf(o, ps.Label, "unpin")))
+									ob += fmt.Sprintf("%d>%d,", ps.Expire, len(callsOf(o, ps.Label, "unpin")))
 								}
 								R.Eval(sec, fmt.Sprintf("expiry|n%d|fol=%v|dis=%v|%s|%s|%s", n, cfg.fol, cfg.dis, style, mode, ob), nexp > 0)
 								R.Outcome(sec, fmt.Sprintf("follower=%v expired=%d unpin-calls=%d", cfg.fol, nexp, len(o.Calls)))
